@@ -322,7 +322,17 @@ def c18(tier, seed):
     return c.finish()
 
 
-PROPS = {"C17": c17, "C18": c18, "C16": c16, "C15": c15, "C14": c14, "C11": c11, "C12": c12, "C10": c10, "C13": c13, "C06": c06, "C08": c08, "C09": c09, "C01": c01, "C02": c02, "C03": c03, "C04": c04, "C05": c05}
+def c19(tier, seed):
+    c = Check("C19", tier, seed)
+    c.rule = "MC (EventQueueMC): OwningQueue::poll transcribed against EventQueue.tla, queue 2 (lengths 0..2) and 4 (0..1), any completion order, bursts up to the queue size, 3N events, handler succeeding or failing; negative configuration (no re-add when the handler fails) must be refused; traces: OwningQueue directly (2x16, 4x64, 8x16; written lengths 0..capacity; handler returning Some/None/Err), VirtIOInput::pop_pending_event and VirtIOSound::latest_notification (32 buffers, 8-byte events), >= 12N+40 events (thorough 100N) in random bursts and orders, all transports; VirtIOSocket::poll is covered by the vsock family (invariant Stocked of Vsock.tla)"
+    c.assumptions = ["sound and input events have a fixed size: they are driven with well-formed 8-byte events; arbitrary written lengths are applied to OwningQueue and the socket receive queue"]
+    mc(c, ["EventQueue_q2", "EventQueue_q4"], tier, module="EventQueueMC", negative=["EventQueue_bug_no_readd"])
+    device_family(c, "evq", "EventQueueTrace", "EventQueueTrace.cfg", seed, tier, max_events=1500)
+    device_family(c, "vsock", "VsockTrace", "VsockTrace.cfg", seed + 19, tier, max_events=700, queues=False)
+    return c.finish()
+
+
+PROPS = {"C19": c19, "C17": c17, "C18": c18, "C16": c16, "C15": c15, "C14": c14, "C11": c11, "C12": c12, "C10": c10, "C13": c13, "C06": c06, "C08": c08, "C09": c09, "C01": c01, "C02": c02, "C03": c03, "C04": c04, "C05": c05}
 
 
 def main():
